@@ -1,12 +1,27 @@
 --------------------------- MODULE Trace_TcpConn ---------------------------
 (***************************************************************************)
-(* What the clients of the real TCP engine saw (harness/c10), one NDJSON   *)
-(* line per connection: the pipelined queries in TcpConn.tla's vocabulary, *)
-(* their ids, and the ids of the frames received in order.  TcpConn.tla's  *)
-(* WholeInOrderOnePerQuery, stated on the observable projection: the       *)
-(* frames received are whole, and are the replies of the answerable        *)
-(* queries, one each, in query order -- a prefix of them when the          *)
-(* connection ended early, all of them when the client read to the end.    *)
+(* What the clients of the real TCP / DoT engine saw (harness/c10), one    *)
+(* NDJSON line per connection, in TcpConn.tla's vocabulary:                *)
+(*   kinds, ids   the pipelined queries                                    *)
+(*   sizes        the size class of the answer each query asks for         *)
+(*                (TcpFrames: small | large | huge)                        *)
+(*   opts, cks    each query's EDNS shape (none | plain | cookie) and its  *)
+(*                own client cookie ("" = none)                            *)
+(*   recv         the ids of the frames received, in order                 *)
+(*   rsz, rok     per frame received: its size class, and whether it is a  *)
+(*                NOERROR answer (a resolution failure is small whatever   *)
+(*                was asked)                                               *)
+(*   rck          per frame received: the client half of its COOKIE option *)
+(*   wn, wk / rn, rk   per query: it asked for NSID / sent keepalive; per   *)
+(*                frame received: it carries an NSID / a keepalive option   *)
+(* TcpConn.tla's invariants, stated on the observable projection:          *)
+(* WholeInOrderOnePerQuery -- the frames received are whole, and are the   *)
+(* replies of the answerable queries, one each, in query order whatever    *)
+(* their size classes (a prefix of them when the connection ended early,   *)
+(* all of them when the client read to the end), each answer of the size   *)
+(* class its question asks for; ReplyOptIsOwn -- a COOKIE option only in   *)
+(* the reply to a query that carried a cookie, built from that cookie;     *)
+(* NSID / edns-tcp-keepalive only in the reply to a query that asked.      *)
 (***************************************************************************)
 EXTENDS Integers, Sequences, TLC, Json, IOUtils, TcpFrames
 
@@ -17,15 +32,25 @@ TraceNext == l <= Len(TraceLog) /\ l' = l + 1
 TraceSpec == TraceInit /\ [][TraceNext]_l
 
 Seen == TraceLog[l - 1]
-Expected(o) ==
-  LET idx == SelectSeq([i \in 1..Len(o.kinds) |-> i], LAMBDA i : Answerable(o.kinds[i]))
-  IN [i \in 1..Len(idx) |-> o.ids[idx[i]]]
+(* the positions of the answerable queries, in query order *)
+Owed(o) == SelectSeq([i \in 1..Len(o.kinds) |-> i], LAMBDA i : Answerable(o.kinds[i]))
+Expected(o) == [i \in 1..Len(Owed(o)) |-> o.ids[Owed(o)[i]]]
 
 WholeInOrderOnePerQuery ==
   l > 1 =>
     /\ Seen.whole
     /\ IsPrefix(Seen.recv, Expected(Seen))
     /\ Seen.done => Seen.recv = Expected(Seen)
+    /\ \A r \in 1..Len(Seen.recv) :
+         (r <= Len(Owed(Seen)) /\ Seen.rok[r]) => Seen.rsz[r] = Seen.sizes[Owed(Seen)[r]]
+
+ReplyOptIsOwn ==
+  l > 1 =>
+    \A r \in 1..Len(Seen.recv) :
+      (r <= Len(Owed(Seen)) /\ Seen.recv[r] = Expected(Seen)[r]) =>
+        /\ Seen.rck[r] # "" => Seen.rck[r] = Seen.cks[Owed(Seen)[r]]
+        /\ Seen.rn[r] => Seen.wn[Owed(Seen)[r]]
+        /\ Seen.rk[r] => Seen.wk[Owed(Seen)[r]]
 
 (* a query served after a panicking or sub-header frame would be a reply   *)
 (* from a connection the engine should have closed                         *)
